@@ -2,7 +2,7 @@
 from ..registry import rule
 from ..core import origin_of_operand, AnchorMissing, comparisons, rel_str, mirror, feasible_reach
 from .common import *
-from .walrules import rule_seq_floor_on_open, rule_delete_tables_after_manifest, from_highest_segment_on_disk, rule_resume_offset_exact
+from .walrules import rule_seq_floor_on_open, rule_delete_tables_after_manifest, from_highest_segment_on_disk, rule_resume_offset_exact, rule_replay_never_gives_up_on_size
 from . import codec
 
 EXPLANATION = ("Structural necessary conditions of re-openability: the manifest decoder reads exactly what the encoder writes, "
@@ -142,6 +142,7 @@ def r3(cx):
 def r4(cx):
     f = cx.f
     rule_resume_offset_exact(cx)
+    rule_replay_never_gives_up_on_size(cx)
     b = f.body("Wal::open_with_min_log_number")
     for c in sites(cx, b, "Wal::create_writer"):
         o = origin_of_operand(b, c.args[1], through_calls="all")
